@@ -49,7 +49,18 @@ class TableDist(DelayDistribution):
 
 @struct.dataclass
 class Out(Base):
-    a: jax.Array
+    a: jax.Array          # integer probe word (the model's payload)
+    f: jax.Array          # float side channel that is NaN / inf at some sequence numbers: payload identity must not depend on finiteness
+
+
+def side_f(nid, seq):
+    """the float a probe emits at sequence number seq (python floats; NaN at seq % 7 == 3, inf at seq % 11 == 5)"""
+    if seq % 7 == 3: return float("nan")
+    if seq % 11 == 5: return float("inf")
+    return 0.25 * seq + nid
+
+
+DEFAULT_F = -1.5
 
 
 HOSTLOG = []          # (node, seq, ts_ticks, state_before, acc, rng0, rng1)
@@ -66,8 +77,8 @@ class Probe(BaseNode):
     def __init__(self, *a, nid=0, **k):
         super().__init__(*a, **k); self.nid = nid
 
-    def init_state(self, rng=None, graph_state=None): return Out(jnp.array([1 + self.nid], dtype=jnp.int32))
-    def init_output(self, rng=None, graph_state=None): return Out(jnp.array([3 + self.nid], dtype=jnp.int32))
+    def init_state(self, rng=None, graph_state=None): return Out(jnp.array([1 + self.nid], dtype=jnp.int32), jnp.array([0.0], dtype=jnp.float32))
+    def init_output(self, rng=None, graph_state=None): return Out(jnp.array([3 + self.nid], dtype=jnp.int32), jnp.array([DEFAULT_F], dtype=jnp.float32))
 
     def step(self, ss):
         tsq = jnp.round(ss.ts * 64).astype(jnp.int32)
@@ -90,7 +101,9 @@ class Probe(BaseNode):
             io_callback(lambda *a: _host(name, *a), None, ss.seq, tsq, ss.state.a[0], acc, rw[0], rw[1], ordered=True)
         else:
             _host(self.name, ss.seq, tsq, ss.state.a[0], acc, rw[0], rw[1])
-        return ss.replace(state=Out(acc.reshape(1)), rng=new_rng), Out(acc.reshape(1))
+        sq = jnp.asarray(ss.seq, dtype=jnp.int32)
+        fv = jnp.where(sq % 7 == 3, jnp.nan, jnp.where(sq % 11 == 5, jnp.inf, 0.25 * sq.astype(jnp.float32) + self.nid)).astype(jnp.float32).reshape(1)
+        return ss.replace(state=Out(acc.reshape(1), ss.state.f), rng=new_rng), Out(acc.reshape(1), fv)
 
 
 def build(cfg):
@@ -238,7 +251,37 @@ def run_history(job):
     return dict(id=job["id"], node_phase=nph, conn_phase=cph, episodes=episodes)
 
 
+def run_wallclock_stamp(job):
+    """wall-clock episode in which one node re-stamps its step time (e.g. a sensor driver reporting when the sample was taken): the runtime
+    supports this through phase_overwrite; the record of every step must stay self-consistent (ts_start + delay = ts_end)"""
+    shift = job.get("shift", 0.0005)
+
+    class Stamper(Probe):
+        def step(self, ss):
+            new_ss, out = super().step(ss)
+            return new_ss.replace(ts=(ss.ts + shift).astype(ss.ts.dtype)), out
+    cfg = job["cfg"]; N = {}
+    for n, nd in cfg["nodes"].items():
+        cls = Stamper if n == job["stamper"] else Probe
+        N[n] = cls(name=n, rate=64 // nd["period"], delay=nd["exp"] * T, delay_dist=TableDist.create(nd["delays"]), nid=nd["nid"])
+    for c, cc in cfg["conns"].items():
+        N[cc["in"]].connect(N[cc["out"]], blocking=False, delay=cc["exp"] * T, delay_dist=TableDist.create(cc["delays"]), window=cc["window"], skip=cc["skip"])
+    g = ra.AsyncGraph(N, N[cfg["sup"]], clock=const.Clock.WALL_CLOCK, real_time_factor=1.0)
+    g.set_record_settings(params=False, rng=False, inputs=False, state=True, output=True)
+    gs = g.init(jax.random.PRNGKey(0)); g.warmup(gs, jit_step=False)
+    gs, ss = g.reset(gs)
+    for i in range(job["steps"]): gs, ss = g.step(gs)
+    time.sleep(0.2); g.stop()
+    r = g.get_record(); rows = {}
+    for n, nr in r.nodes.items():
+        st = nr.steps
+        rows[n] = dict(seq=[int(x) for x in st.seq], ts_start=[float(x) for x in st.ts_start], ts_end=[float(x) for x in st.ts_end],
+                       delay=[float(x) for x in st.delay], phase_overwrite=[float(x) for x in st.phase_overwrite])
+    return dict(id=job["id"], rows=rows, shift=shift)
+
+
 def run_job(job):
+    if job.get("kind") == "wallclock_stamp": return run_wallclock_stamp(job)
     if "history" in job: return run_history(job)
     cfg = job["cfg"]; rec = job.get("record", dict(params=False, rng=False, inputs=True, state=True, output=True))
     N = build(cfg)
@@ -277,12 +320,19 @@ def run_job(job):
                     user_calls += 1
                     gs, ss = g.step(gs, new_ss, out); obs.append(canon_ss(ss))
             t0 = time.time(); g.stop(); tstop = time.time() - t0
+            ep_phases = phases(cfg, N)
+            if job.get("between") and ep == 0:
+                # the user re-configures expected delays between two episodes of the same graph object (no new warmup)
+                for tgt, val in job["between"].items():
+                    if ">" in tgt:
+                        o, i = tgt.split(">"); N[i].inputs[o].set_delay(delay=val * T)
+                    else: N[tgt].set_delay(delay=val * T)
             with HOSTLOCK: calls = list(HOSTLOG)
             try:
                 r = g.get_record(); c = canon_record(cfg, r, rec)
             except TypeError as e:
                 c = dict(error="record_unavailable:" + str(e)[:80])
-            episodes.append(dict(record=c, obs=obs, calls=calls, user_calls=user_calls, stop_s=round(tstop, 3),
+            episodes.append(dict(record=c, obs=obs, calls=calls, user_calls=user_calls, stop_s=round(tstop, 3), node_phase=ep_phases[0], conn_phase=ep_phases[1],
                                  eps_counter=int(g._async_nodes[sup].eps) if hasattr(g._async_nodes[sup], "eps") else None))
     finally:
         ra._verif_hook = None
